@@ -319,3 +319,54 @@ def embed_core(rng, core, extra_rows, extra_cols, alphabet=(0, 1)):
         for b, j in enumerate(cs):
             M[i][j] = core[a][b]
     return M, rs, cs
+
+
+def rank_gf(M, p):
+    """rank of an integer matrix over GF(p)"""
+    A = [[x % p for x in r] for r in M]
+    m = len(A)
+    n = len(A[0]) if A else 0
+    rk = 0
+    for c in range(n):
+        piv = None
+        for r in range(rk, m):
+            if A[r][c] % p:
+                piv = r
+                break
+        if piv is None:
+            continue
+        A[rk], A[piv] = A[piv], A[rk]
+        inv = pow(A[rk][c], p - 2, p)
+        A[rk] = [(x * inv) % p for x in A[rk]]
+        for r in range(m):
+            if r != rk and A[r][c] % p:
+                f = A[r][c]
+                A[r] = [(x - f * y) % p for x, y in zip(A[r], A[rk])]
+        rk += 1
+        if rk == m:
+            break
+    return rk
+
+
+def sepa_profile(M, rowpart, colpart, p):
+    """ranks (top-right, bottom-left) of the off-diagonal blocks over GF(2) of the support and, for p = 3, over GF(3)"""
+    m, n = len(M), len(M[0]) if M else 0
+    r1 = [i for i in range(m) if rowpart[i] == 0]
+    r2 = [i for i in range(m) if rowpart[i] == 1]
+    c1 = [j for j in range(n) if colpart[j] == 0]
+    c2 = [j for j in range(n) if colpart[j] == 1]
+    B = [[M[i][j] for j in c2] for i in r1]
+    C = [[M[i][j] for j in c1] for i in r2]
+    sup = lambda X: [[1 if x else 0 for x in r] for r in X]
+    b2, c2r = (rank_gf(sup(B), 2) if B and B[0] else 0), (rank_gf(sup(C), 2) if C and C[0] else 0)
+    if p == 3:
+        b3, c3 = (rank_gf(B, 3) if B and B[0] else 0), (rank_gf(C, 3) if C and C[0] else 0)
+        if (b2, c2r) != (b3, c3):
+            return None
+    return (b2, c2r), (len(r1), len(c1), len(r2), len(c2))
+
+
+def insert_line(M, pos, line, is_row):
+    if is_row:
+        return M[:pos] + [line] + M[pos:]
+    return [r[:pos] + [line[i]] + r[pos:] for i, r in enumerate(M)]
